@@ -70,7 +70,7 @@ pub struct RAnchor {
     pub ydev: Option<RDev>,
 }
 
-type R<T> = Result<T, String>;
+pub type R<T> = Result<T, String>;
 
 fn dev(d: Option<Result<rl::DeviceOrVariationIndex, read_fonts::ReadError>>) -> R<Option<RDev>> {
     match d {
@@ -94,7 +94,7 @@ fn dev(d: Option<Result<rl::DeviceOrVariationIndex, read_fonts::ReadError>>) -> 
     }
 }
 
-fn val(v: &rg::ValueRecord, data: FontData) -> R<RVal> {
+pub fn val(v: &rg::ValueRecord, data: FontData) -> R<RVal> {
     Ok(RVal {
         v: [
             v.x_placement().unwrap_or(0),
@@ -111,7 +111,7 @@ fn val(v: &rg::ValueRecord, data: FontData) -> R<RVal> {
     })
 }
 
-fn anchor(a: &rg::AnchorTable) -> R<RAnchor> {
+pub fn anchor(a: &rg::AnchorTable) -> R<RAnchor> {
     Ok(RAnchor {
         x: a.x_coordinate(),
         y: a.y_coordinate(),
